@@ -192,6 +192,9 @@ package container
 //@   loop 0: invariant len(fds) == len(fileToClose) && len(fds) == rank(openErrors, rangeindex + 1) && len(fds) <= rangeindex + 1 && cap(fds) == len(open) && cap(fileToClose) == len(open)
 //@   loop 0: invariant forall k int :: rangeindex < k && k < len(open) ==> len(openErrors[k]) == 0
 //@   callsite os.OpenFile: assert @C14 O.checked == name && O.checked_ok
+//@   callsite os.OpenFile: assert @C14 name == open[i].Path
+//@   callsite os.OpenFile: assert @C14 flag == open[i].Flag
+//@   callsite os.OpenFile: assert @C14 perm == open[i].Perm
 //@   callsite (*containerServer).sendReplyFiles: assert @C14 len(rep.BatchErrors) == len(open) && len(msg.Fds) == rank(rep.BatchErrors, len(open)) && len(fileToClose) == len(msg.Fds)
 
 // ---- host side of the RPC (typestate over H.st, spec/protocol.contracts) ----
